@@ -1,17 +1,22 @@
 --------------------------- MODULE Trace_Decide ---------------------------
 (* Trace validation of recorded decisions.  One line of obs.ndjson = one    *)
-(* decision of the real code (request, hook events, response).  Each TLC     *)
-(* step consumes one line and evaluates every contract applicable to it;     *)
-(* failures are printed as verdict lines and never stop the run, acceptance  *)
-(* (POSTCONDITION) requires that every line was consumed.                    *)
+(* decision of the real code (request, hook events, response).  Every        *)
+(* contract applicable to a line is evaluated; failures are printed as       *)
+(* verdict lines and never stop the run, acceptance (POSTCONDITION) requires *)
+(* that every line was evaluated.                                            *)
+(*                                                                           *)
+(* Lines are independent decisions, so they are validated as independent TLC *)
+(* states: from the root state `Spread` fans out to one state per line, and  *)
+(* `Eval` - enabled once in each of them - evaluates the contracts of that    *)
+(* line.  TLC's workers thus validate lines in parallel inside one JVM.       *)
+(* Relations between the members of a group of runs (adjacent lines sharing   *)
+(* case.group.id) are evaluated on every member against the group's first line *)
 EXTENDS Methods, Json, TLC
 
 Trace == ndJsonDeserialize("obs.ndjson")
 
-VARIABLES l, memo
-vars == <<l, memo>>
-
-NoMemo == [gid |-> "", sum |-> <<>>]
+VARIABLES l, done
+vars == <<l, done>>
 
 FailProp(o) == IF Has(o.case, "failprop") THEN o.case.failprop ELSE "C20"
 
@@ -33,7 +38,8 @@ MethodVerdicts(o) ==
        (IF IsUtility(Method(o)) /\ HasEval(o) THEN C03(o) \cup C04(o) ELSE {}) \cup
        (IF Method(o) = "majorityHeuristic" /\ HasEval(o) THEN C11(o) ELSE {}) \cup
        (IF Method(o) = "aspectEliminationHeuristic" /\ HasEval(o) THEN C12(o) ELSE {}) \cup
-       (IF Method(o) = "satisfactionHeuristic" /\ HasEval(o) THEN C13(o) ELSE {})
+       (IF Method(o) = "satisfactionHeuristic" /\ HasEval(o) THEN C13(o) ELSE {}) \cup
+       (IF Method(o) = "electreIII" /\ HasEval(o) THEN C05(o) \cup C06(o) ELSE {})
 
 (* relation between the members of a group of runs (adjacent lines sharing case.group.id) *)
 GroupSummary(o) ==
@@ -41,28 +47,36 @@ GroupSummary(o) ==
   ELSE IF o.case.group.rel = "perm" THEN [status |-> 200, s |-> PermSummary(o)]
   ELSE [status |-> 200, s |-> o.resp]
 
-GroupVerdicts(o) ==
+RECURSIVE GroupFirst(_)
+GroupFirst(k) ==
+  IF k > 1 /\ Has(Trace[k-1].case, "group") /\ Trace[k-1].case.group.id = Trace[k].case.group.id
+  THEN GroupFirst(k - 1) ELSE k
+
+GroupVerdicts(k) ==
+  LET o == Trace[k] IN
   IF ~Has(o.case, "group") THEN {}
-  ELSE IF memo.gid # o.case.group.id THEN {}
-  ELSE IF memo.sum = GroupSummary(o) THEN {}
-  ELSE {Fail(o.case.group.p, o.case.group.rel, "")}
+  ELSE LET f == GroupFirst(k) IN
+       IF f = k \/ GroupSummary(Trace[f]) = GroupSummary(o) THEN {}
+       ELSE {Fail(o.case.group.p, o.case.group.rel, "")}
 
-Verdicts(o) == StatusVerdicts(o) \cup GridVerdicts(o) \cup MethodVerdicts(o) \cup GroupVerdicts(o)
+Verdicts(k) ==
+  LET o == Trace[k] IN
+  StatusVerdicts(o) \cup GridVerdicts(o) \cup MethodVerdicts(o) \cup GroupVerdicts(k)
 
-Init == l = 1 /\ memo = NoMemo
+Init == l = 0 /\ done = FALSE
 
-Next ==
-  /\ l <= Len(Trace)
-  /\ LET o == Trace[l]
-         V == Verdicts(o)
-     IN /\ IF V = {} THEN TRUE
-           ELSE PrintT(ToJson([VERDICT |-> l, case |-> o.case.id, v |-> V]))
-        /\ memo' = IF Has(o.case, "group") /\ memo.gid # o.case.group.id
-                   THEN [gid |-> o.case.group.id, sum |-> GroupSummary(o)]
-                   ELSE IF Has(o.case, "group") THEN memo ELSE NoMemo
-  /\ l' = l + 1
+Spread == l = 0 /\ l' \in 1..Len(Trace) /\ UNCHANGED done
 
+Eval ==
+  /\ l > 0 /\ ~done
+  /\ LET V == Verdicts(l) IN
+       IF V = {} THEN TRUE
+       ELSE PrintT(ToJson([VERDICT |-> l, case |-> Trace[l].case.id, v |-> V]))
+  /\ done' = TRUE /\ UNCHANGED l
+
+Next == Spread \/ Eval
 Spec == Init /\ [][Next]_vars
 
-AllConsumed == TLCGet("stats").diameter = Len(Trace) + 1
+(* every line was evaluated: root + one state per line before and after its evaluation *)
+AllConsumed == TLCGet("distinct") = 2 * Len(Trace) + 1
 =============================================================================
